@@ -195,6 +195,17 @@ func predParse(c Case) (r Result) {
 		r.Expected, r.Got = want, got
 		return
 	}
+	// white space before the first and after the last token is as insignificant as between tokens
+	for _, ws := range []string{" ", "\t", "\n", "\r\n "} {
+		for _, text := range []string{c.Expr + ws, ws + c.Expr, ws + c.Expr + ws} {
+			g2, e2, p2 := libDump(text)
+			if p2 != nil || e2 != nil || g2 != want {
+				r.Violation = "white space around the expression changes how it is parsed"
+				r.Expected, r.Got = want, fmt.Sprint(g2, e2, p2)
+				return
+			}
+		}
+	}
 	// metamorphic layer: every alternative spelling has the same library AST
 	if alts, ok := c.Extra["alts"].([]interface{}); ok {
 		for _, a := range alts {
